@@ -537,6 +537,11 @@ func TestC19(t *testing.T) {
 			st.Count("push_service_setup_failed", 1)
 		}
 	}
+	// "pushed again after the back-off": the back-off itself, for attempt counts only an endpoint that has
+	// been failing for days reaches
+	if len(st.Violations) == 0 {
+		backoffSweep("C19")(t, st)
+	}
 	st.Set("evaluations", len(codes)+st.Get("retries_checked")+st.Get("burst_served")+st.Get("climb_served"))
 	st.Set("traces_validated_against_impl", len(codes)-disagreements)
 	st.Set("rule", "the real HttpPushStreamer under testing/synctest with an in-memory RoundTripper scripted per request: one message per final status code (quick: 22 codes incl. transport error; thorough: every code 200-599 and 100-103), fast and slow answers, retry after back-off, then a 40-message burst; distinct = distinct status codes")
